@@ -7,6 +7,8 @@
 (*   [op |-> "upsert", id, a, b, rule]   rule in nothing all ca cb cab     *)
 (*   [op |-> "foi" | "foc", ca, attr, asg]                                 *)
 (*        condition a = ca ; Attrs b = attr (0 = none); Assign b = asg     *)
+(*   [op |-> "savec", k1, k2, a, b]   Save on a second table with the      *)
+(*        composite key (k1, k2); a zero part is an ordinary key value     *)
 (* The position of Session / WithContext calls in the chain (field sess)   *)
 (* has no meaning in the reference: that is the property.                  *)
 (***************************************************************************)
@@ -19,7 +21,7 @@ Put(t, id, r) == [i \in DOMAIN t \cup {id} |-> IF i = id THEN r ELSE t[i]]
 
 \* st = [t |-> table, next |-> key of the next generated row]
 \* result: [ret |-> record returned / left in the caller's value, wrote |-> set of ids written]
-Step(st, o) ==
+Step0(st, o) ==
   CASE o.op = "save" ->
          LET id == IF o.id = 0 THEN st.next ELSE o.id IN
          [t |-> Put(st.t, id, [a |-> o.a, b |-> o.b, del |-> FALSE]),       \* the full value, whether or not the key existed
@@ -53,8 +55,20 @@ Step(st, o) ==
               ELSE [t |-> Put(st.t, st.next, [a |-> o.ca, b |-> b2, del |-> FALSE]), next |-> st.next + 1,
                     ret |-> [id |-> st.next, a |-> o.ca, b |-> b2], wrote |-> {st.next}]
 
+\* st.c: the composite-key table, <<k1, k2>> -> [a, b]
+Step(st, o) ==
+  IF o.op = "savec"
+  THEN [t |-> st.t, next |-> st.next,
+        c |-> [k \in DOMAIN st.c \cup {<<o.k1, o.k2>>} |-> IF k = <<o.k1, o.k2>> THEN [a |-> o.a, b |-> o.b] ELSE st.c[k]],
+        ret |-> [id |-> 0, a |-> o.a, b |-> o.b], wrote |-> {}]
+  ELSE Step0(st, o) @@ [c |-> st.c]
+Strip(s2) == [t |-> s2.t, next |-> s2.next, c |-> s2.c]
+
 ObsOK(s2, o, obs) ==
   /\ obs.err = "nil"
+  /\ \A key \in DOMAIN s2.c : \E k \in DOMAIN obs.ctable :
+        obs.ctable[k].k1 = key[1] /\ obs.ctable[k].k2 = key[2] /\ obs.ctable[k].a = s2.c[key].a /\ obs.ctable[k].b = s2.c[key].b
+  /\ Len(obs.ctable) = Cardinality(DOMAIN s2.c)
   /\ \A i \in DOMAIN s2.t : \E k \in DOMAIN obs.table :
         obs.table[k].id = i /\ obs.table[k].a = s2.t[i].a /\ obs.table[k].b = s2.t[i].b /\ obs.table[k].del = s2.t[i].del
   /\ Len(obs.table) = Cardinality(DOMAIN s2.t)
@@ -64,27 +78,34 @@ RECURSIVE RunFrom(_, _, _)
 RunFrom(st, ops, i) ==
   IF i > Len(ops) THEN 0
   ELSE LET s2 == Step(st, ops[i]) IN
-       IF ~ObsOK(s2, ops[i], ops[i].obs) THEN i ELSE RunFrom([t |-> s2.t, next |-> s2.next], ops, i + 1)
+       IF ~ObsOK(s2, ops[i], ops[i].obs) THEN i ELSE RunFrom(Strip(s2), ops, i + 1)
 
 (***************************************************************************)
 (* Bounded exploration with design-level statements.                       *)
 (***************************************************************************)
 CONSTANTS MaxOps, Vals
 InitT == (1 :> [a |-> 1, b |-> 1, del |-> FALSE]) @@ (2 :> [a |-> 2, b |-> 2, del |-> TRUE])
+InitC == (<<1, 1>> :> [a |-> 1, b |-> 1]) @@ (<<2, 1>> :> [a |-> 2, b |-> 2])
+InitSt == [t |-> InitT, next |-> 3, c |-> InitC]
 Ops ==   {[op |-> "save", id |-> i, a |-> a, b |-> b] : i \in 0..3, a \in Vals, b \in {0} \cup Vals}
     \cup {[op |-> "upsert", id |-> i, a |-> a, b |-> b, rule |-> r] : i \in 1..3, a \in Vals, b \in Vals, r \in {"nothing", "all", "ca", "cb", "cab"}}
     \cup {[op |-> f, ca |-> c, attr |-> at, asg |-> as] : f \in {"foi", "foc"}, c \in Vals \cup {3}, at \in {0, 5}, as \in {0, 7}}
+    \cup {[op |-> "savec", k1 |-> k1, k2 |-> k2, a |-> 9, b |-> b] : k1 \in {1, 3}, k2 \in {0, 1}, b \in {0, 8}}
 VARIABLES st, hist
-Init == st = [t |-> InitT, next |-> 3] /\ hist = <<>>
+Init == st = InitSt /\ hist = <<>>
+\* a key with a zero part is "no full key": Save inserts, so such a key is saved only while it is free
+Admissible(o) == o.op = "savec" /\ (o.k1 = 0 \/ o.k2 = 0) => <<o.k1, o.k2>> \notin DOMAIN st.c
 Next == /\ Len(hist) < MaxOps
-        /\ \E o \in Ops : LET s2 == Step(st, o) IN st' = [t |-> s2.t, next |-> s2.next] /\ hist' = Append(hist, o)
+        /\ \E o \in Ops : Admissible(o) /\ LET s2 == Step(st, o) IN st' = Strip(s2) /\ hist' = Append(hist, o)
 Spec == Init /\ [][Next]_<<st, hist>>
 
 \* saving twice equals saving once; FirstOrInit never writes; FirstOrCreate writes at most one row
 SaveIdempotent == \A o \in {x \in Ops : x.op = "save" /\ x.id # 0} :
-                     LET s1 == Step(st, o) IN Step([t |-> s1.t, next |-> s1.next], o).t = s1.t
+                     LET s1 == Step(st, o) IN Step(Strip(s1), o).t = s1.t
 InitNeverWrites == \A o \in {x \in Ops : x.op = "foi"} : Step(st, o).t = st.t /\ Step(st, o).wrote = {}
 CreateAtMostOne == \A o \in {x \in Ops : x.op = "foc"} : Cardinality(Step(st, o).wrote) <= 1
+SaveCompositeIdempotent == \A o \in {x \in Ops : x.op = "savec" /\ x.k1 # 0 /\ x.k2 # 0} :
+                     LET s1 == Step(st, o) IN Step(Strip(s1), o).c = s1.c /\ s1.t = st.t
 DoNothingKeeps == \A o \in {x \in Ops : x.op = "upsert" /\ x.rule = "nothing"} :
                      o.id \in DOMAIN st.t => Step(st, o).t = st.t
 =============================================================================
